@@ -50,7 +50,7 @@ package main
 // C07: an entry marked as message of death has no other effect: no session appears or disappears,
 // nicknames, channels and configuration stay as they are.
 //@   ensures mod-frame: msg.Type == robust.MessageOfDeath ==> (forall x robust.Id :: (x in i.sessions <==> old(x in i.sessions)) && (x in i.sessions ==> i.sessions[x] == old(i.sessions[x]) && i.sessions[x].Nick == old(i.sessions[x].Nick) && i.sessions[x].loggedIn == old(i.sessions[x].loggedIn))) && (forall n ircserver.lcNick :: n in i.nicks <==> old(n in i.nicks)) && (forall ch ircserver.lcChan :: ch in i.channels <==> old(ch in i.channels)) && i.lastProcessed == old(i.lastProcessed)
-//@   modifies *, !robust.Message
+//@   modifies *, !robust.Message, !maptype(map[uint64][]byte)
 
 // C17 (continued): entries carry increasing ids (raft index order); what the server has seen never
 // runs ahead of the entry being applied.
@@ -110,3 +110,95 @@ package main
 //@ guard FSM.sessionExpirationDur by FSM.sessionExpirationMu
 //@ func FSM.applyRobustMessage
 //@   requires locks-distinct: i.sessionsMu != i.ConfigMu && i.ConfigMu != i.lastProcessedMu && i.sessionsMu != i.lastProcessedMu && toplevel(i.sessionsMu) && toplevel(i.ConfigMu) && toplevel(i.lastProcessedMu)
+
+// ---------------------------------------------------------------------------
+// C02: compaction. Ghost state: FSM.log = the raft indexes of all command
+// entries applied so far, FSM.hw = the index of the newest entry applied.
+// Invariant snapInv, preserved by Apply and by Snapshot:
+//   snapLogged   the node-local log copy holds applied entries only;
+//   snapBounded  applied entries have indexes in [1, hw];
+//   snapStates   the state filed under index f is the fold of exactly the applied
+//                entries with index <= f (nothing else, nothing missing);
+//   snapCovered  every applied entry that is gone from the log copy is covered by
+//                a filed state whose index lies below everything still in the copy
+//                (so the next snapshot finds it and continues from it);
+//   snapLive     the live server has absorbed exactly the applied entries.
+//@ ghostfield FSM.log set
+//@ ghostfield FSM.hw uint64
+//@ pred snapLogged(fsm *FSM) = forall k uint64 :: fsm.ircstore.idx[k] ==> fsm.log[k]
+//@ pred snapBounded(fsm *FSM) = forall k uint64 :: fsm.log[k] ==> 1 <= k && k <= fsm.hw
+//@ pred snapStates(fsm *FSM) = forall f uint64 :: f in fsm.lastSnapshotState ==> f <= fsm.hw && (forall k uint64 :: snapApplied(fsm.lastSnapshotState[f])[k] <==> fsm.log[k] && k <= f)
+//@ pred snapCovered(fsm *FSM) = forall k uint64 :: fsm.log[k] && !fsm.ircstore.idx[k] ==> (exists f uint64 :: f in fsm.lastSnapshotState && k <= f && (forall j uint64 :: fsm.ircstore.idx[j] ==> f < j))
+//@ pred snapInv(fsm *FSM) = fsm != nil && fsm.ircstore != nil && fsm.lastSnapshotState != nil && snapLogged(fsm) && snapBounded(fsm) && snapStates(fsm) && snapCovered(fsm)
+
+//@ func FSM.applyRobustMessage
+//@   ensures ghost-applied: forall k uint64 :: i.applied[k] <==> old(i.applied[k]) || k == idxOf(msg.Id.Id)
+// applying an entry leaves the compaction bookkeeping of the state machine alone
+//@   ensures c02-fsm-kept: fsm.lastSnapshotState == old(fsm.lastSnapshotState) && fsm.ircstore == old(fsm.ircstore) && fsm.skipDeletionForCanary == old(fsm.skipDeletionForCanary)
+//@   modifies ircserver.IRCServer.applied[i]
+
+// the time of an input: its own timestamp, or (old networks) its id
+//@ pred msgTime(m *robust.Message) = ite(m.UnixNano == 0, time.Unix(0, m.Id.Id), time.Unix(0, m.UnixNano))
+//@ func FSM.Snapshot
+//@   requires c02-inv: snapInv(fsm) && outputStream != nil
+//@   let os0 = outputStream
+//@   let idx0 = fsm.ircstore.idx
+// environment: no I/O errors, stored entries decode and carry their own index and an id that names them,
+// applying an entry does not replace the process-wide output stream (only Restore does; raft runs
+// Snapshot and Restore on the same goroutine)
+//@   assume@after proto.Unmarshal#0 : c02-stored-entry: callres == nil && p.Index == i
+//@   assume@after json.Unmarshal#0 : c02-stored-entry: callres == nil && nlog.Index == i
+//@   assume@after NewMessageFromBytes#0 : c02-own-id: idxOf(callres.Id.Id) == nlog.Index
+//@   assume@after FSM.applyRobustMessage#0 : c02-same-stream: outputStream == os0
+//@   assume@after OutputStream.Delete#0 : c02-no-io-error: callres == nil
+//@   assume@after LevelDBStore.DeleteRange#0 : c02-no-io-error: callres == nil
+// what is known about the log copy before anything is changed: it is contiguous with the filed states
+//@   assert@call FSM.sessionExpiration#0 : c02-tail: forall k uint64 :: fsm.log[k] && k >= first ==> fsm.ircstore.idx[k]
+//@   assert@call FSM.sessionExpiration#0 : c02-range: forall k uint64 :: fsm.ircstore.idx[k] ==> first <= k && k <= last
+//@   assert@call FSM.sessionExpiration#0 : c02-head: forall k uint64 :: fsm.log[k] && k < first ==> (exists f uint64 :: f in fsm.lastSnapshotState && k <= f && f < first)
+// the compaction horizon: now - (session expiration, 10 minutes if unset) - the expiry interval
+//@   assert@call Time.Add#0 : c02-horizon: callarg0 == compactionStart && callarg1 == 0 - (ite(fsm.sessionExpirationDur == 0, 600000000000, fsm.sessionExpirationDur) + expireSessionsInterval)
+// the base is the newest filed state below the first retained entry
+//@   loop range fsm.lastSnapshotState #0
+//@     invariant c02-base-in: found ==> base in fsm.lastSnapshotState && base < first
+//@     invariant c02-base-max: forall f uint64 :: f in fsm.lastSnapshotState && seen(f) && f < first ==> found && f <= base
+//@     invariant c02-fresh: forall k uint64 :: !tmpServer.applied[k]
+//@   assert@call IRCServer.Unmarshal#0 : c02-base: base in fsm.lastSnapshotState && base < first && sameslice(callarg1, fsm.lastSnapshotState[base]) && (forall k uint64 :: fsm.log[k] && k < first ==> k <= base)
+//@   assert@if first == 1#0 : c02-nobase: forall k uint64 :: !(fsm.log[k] && k < first)
+//@   loop range fsm.lastSnapshotState #1
+//@     invariant c02-kept: snapStates(fsm) && base in fsm.lastSnapshotState
+//@     invariant c02-folded0: forall k uint64 :: tmpServer.applied[k] <==> fsm.log[k] && k <= base
+//@   assert@call LevelDBStore.GetBulkIterator#0 : c02-start: forall k uint64 :: tmpServer.applied[k] <==> fsm.log[k] && k < first
+// the fold: everything the iterator has passed is absorbed by the temporary server and gone from the
+// log copy and from the output store; everything else is untouched
+//@   loop for available
+//@     invariant c02-it: iterator.bulk && iterator.lo == first && iterator.hi == last + 1 && iterator.snap == idx0 && compactedAll
+//@     invariant c02-cur: available ==> iterator.valid && iterator.snap[iterator.cur] && first <= iterator.cur && iterator.cur <= last
+//@     invariant c02-idx: !fsm.skipDeletionForCanary ==> (forall k uint64 :: fsm.ircstore.idx[k] <==> idx0[k] && !(first <= k && (!available || k < iterator.cur)))
+//@     invariant c02-out: !fsm.skipDeletionForCanary ==> (forall k uint64 :: os0.stored[k] <==> old(os0.stored[k]) && !(idx0[k] && (!available || k < iterator.cur)))
+//@     invariant c02-applied: forall k uint64 :: tmpServer.applied[k] <==> (fsm.log[k] && k < first) || (idx0[k] && (!available || k < iterator.cur))
+//@     invariant c02-states: snapStates(fsm)
+//@     invariant c02-ptrs: fsm.lastSnapshotState != nil && fsm.lastSnapshotState == old(fsm.lastSnapshotState) && fsm.ircstore == old(fsm.ircstore) && fsm.skipDeletionForCanary == old(fsm.skipDeletionForCanary)
+//@     invariant c02-stream: outputStream == os0
+// only entries not newer than the horizon are folded and dropped
+//@   assert@if parsed.Timestamp().After(compactionEnd)#0 : c02-cut: callarg0 <==> msgTime(addrof(parsed)).After(compactionEnd)
+//@   assert@call FSM.applyRobustMessage#0 : c02-fold: callarg1 == addrof(parsed) && callarg2 == tmpServer && callarg3 == nil
+//@   assert@call OutputStream.Delete#0 : c02-folded-output: callarg0 == os0 && idxOf(callarg1.Id) == i && tmpServer.applied[i]
+//@   assert@call LevelDBStore.DeleteRange#0 : c02-folded-entry: callarg0 == fsm.ircstore && callarg1 == i && callarg2 == i && tmpServer.applied[i] && !os0.stored[i]
+// the state that is serialized is the fold of exactly the applied entries up to the index it is filed under
+//@   assert@call IRCServer.Marshal#0 : c02-state: callarg0 == tmpServer && callarg1 == first - 1 && first >= 1 && (forall k uint64 :: tmpServer.applied[k] <==> fsm.log[k] && k <= first - 1)
+//@   assert@call IRCServer.Marshal#0 : c02-dropped: !fsm.skipDeletionForCanary ==> (forall k uint64 :: fsm.ircstore.idx[k] <==> idx0[k] && k >= first)
+//@   assert@call IRCServer.Marshal#0 : c02-dropped-output: !fsm.skipDeletionForCanary ==> (forall k uint64 :: os0.stored[k] <==> old(os0.stored[k]) && !(idx0[k] && k < first))
+//@   ensures c02-inv: result1 == nil && !fsm.skipDeletionForCanary ==> snapInv(fsm)
+//@   ensures c02-filed: result1 == nil ==> fsm.lastSnapshotState != nil
+//@   modifies *, FSM.log[fsm]
+
+// Applying an entry: raft hands entries over in index order. A command entry is added to the log copy
+// and absorbed by the live server; the invariant is kept.
+//@ func FSM.Apply
+//@   requires c02-inv: snapInv(fsm) && l != nil && l.Index > fsm.hw && l.Index >= 1
+//@   assume@after NewMessageFromBytes#0 : c02-own-id: idxOf(callres.Id.Id) == l.Index
+//@   ensures ghost-log: forall k uint64 :: fsm.log[k] <==> old(fsm.log[k]) || (l.Type == raft.LogCommand && k == l.Index)
+//@   ensures ghost-hw: fsm.hw == l.Index
+//@   ensures c02-inv: snapInv(fsm)
+//@   modifies *, FSM.log[fsm], FSM.hw[fsm], raftstore.LevelDBStore.idx[fsm.ircstore]
